@@ -652,3 +652,537 @@ example : FirstHas (fun n => n = "a".toList) (st [(0, "a", 1), (1, "b", 2)]) := 
   · simp [st, Store.set, Store.emptyStore]
 
 end LiquidVerif.C23
+
+/-! # Deepening round
+
+## auto-reload off, whole histories: every hit serves what was served last for that key; without
+eviction every response for a key is the first load -/
+namespace LiquidVerif.C23
+open LiquidVerif.CacheLoader
+
+variable {σ η : Type}
+
+/-- the cache key of a request -/
+def keyOf (cfg : Cfg) (r : Req) : Str := cacheKey cfg r.name r.ctx r.kw
+
+/-- the globals a response to `r` carries -/
+def globalsOf (cfg : Cfg) (r : Req) : Globals := makeGlobals cfg.eg (some (makeGlobals cfg.eg r.globals))
+
+/-- with auto-reload off `get_template(_async)` is: hit → rebind globals, return the cached object;
+miss → load, store, return -/
+theorem getTemplate_off (L : Loader σ η) (cfg : Cfg) (c : Cache (Tpl η)) (s : σ) (r : Req)
+    (hoff : cfg.autoReload = false) :
+    getTemplate L cfg c s r =
+      match find c.items (keyOf cfg r) with
+      | some cached =>
+        (((c.getitem (keyOf cfg r)).1).mutate (keyOf cfg r) { cached with globals := globalsOf cfg r },
+          .ok { cached with globals := globalsOf cfg r })
+      | none =>
+        match refGetTemplate L cfg s r with
+        | .error e => (c, .error e)
+        | .ok t => (c.setitem (keyOf cfg r) t, .ok t) := by
+  rw [getTemplate_eq]
+  unfold checkCacheM keyOf globalsOf
+  cases hf : find c.items (cacheKey cfg r.name r.ctx r.kw) with
+  | none =>
+    rw [getitem_none_eq c _ hf]
+    simp only
+    cases refGetTemplate L cfg s r <;> rfl
+  | some cached =>
+    have : c.getitem (cacheKey cfg r.name r.ctx r.kw) =
+        ({ c with items := eraseKey c.items (cacheKey cfg r.name r.ctx r.kw) ++ [(cacheKey cfg r.name r.ctx r.kw, cached)] }, some cached) := by
+      unfold Cache.getitem; rw [hf]
+    rw [this]
+    simp [hoff]
+
+/-- the history with, for every request: the store it ran on, whether its key was cached when it
+arrived, and its response -/
+def traceOff (L : Loader σ η) (cfg : Cfg) : Cache (Tpl η) → σ → List (Event σ) → List (Req × σ × Bool × Except Err Resp)
+  | _, _, [] => []
+  | c, _, .store s' :: evs => traceOff L cfg c s' evs
+  | c, s, .req r :: evs =>
+    (r, s, (find c.items (keyOf cfg r)).isSome, obsOf (getTemplate L cfg c s r).2)
+      :: traceOff L cfg (getTemplate L cfg c s r).1 s evs
+
+theorem traceOff_run (L : Loader σ η) (cfg : Cfg) (c : Cache (Tpl η)) (s : σ) (evs : List (Event σ)) :
+    (traceOff L cfg c s evs).map (·.2.2.2) = run L cfg c s evs := by
+  induction evs generalizing c s with
+  | nil => rfl
+  | cons ev evs ih =>
+    cases ev with
+    | store s' => simp only [traceOff, run]; exact ih c s'
+    | req r => simp only [traceOff, run, List.map_cons]; rw [ih]
+
+def upd (m : Str → Option (Str × Text)) (k : Str) (v : Str × Text) : Str → Option (Str × Text) :=
+  fun x => if x = k then some v else m x
+
+/-- along a trace: a request whose key is cached gets the name and text **last served for that key**
+(with its own globals); a request whose key is not cached gets the non-caching loader's answer on the
+current store. `m` maps a key to what was last served for it. -/
+def HitsServeLast (L : Loader σ η) (cfg : Cfg) : (Str → Option (Str × Text)) → List (Req × σ × Bool × Except Err Resp) → Prop
+  | _, [] => True
+  | m, (r, s, hit, o) :: rest =>
+    (hit = true → ∃ nt, m (keyOf cfg r) = some nt ∧
+        o = .ok { name := nt.1, text := nt.2, globals := globalsOf cfg r }) ∧
+    (hit = false → o = obsOf (refGetTemplate L cfg s r)) ∧
+    HitsServeLast L cfg
+      (match o with
+        | .ok resp => upd m (keyOf cfg r) (resp.name, resp.text)
+        | .error _ => m) rest
+
+/-- the cache holds, under every key, what was last served for it -/
+def AgreeLast (c : Cache (Tpl η)) (m : Str → Option (Str × Text)) : Prop :=
+  ∀ k t, find c.items k = some t → m k = some (t.name, t.text)
+
+/-- **Auto-reload off, every history, every capacity (evictions included)**: each request either
+misses (its key is not in the cache: evicted or never loaded) and is answered by the non-caching
+loader on the current store, or hits and is answered with exactly the name and text last served for
+its key. Hence between two misses of a key all its responses equal the first load, whatever happens
+to the sources — the precise "serves first" statement in the presence of eviction (when a key is
+evicted is C24's subject: `LiquidVerif.C24.run_refines_spec`). -/
+theorem off_hits_serve_last (L : Loader σ η) (cfg : Cfg) (hoff : cfg.autoReload = false)
+    (evs : List (Event σ)) (c : Cache (Tpl η)) (s : σ) (m : Str → Option (Str × Text))
+    (hn : (ckeys c.items).Nodup) (ha : AgreeLast c m) :
+    HitsServeLast L cfg m (traceOff L cfg c s evs) := by
+  induction evs generalizing c s m with
+  | nil => simp [traceOff, HitsServeLast]
+  | cons ev evs ih =>
+    cases ev with
+    | store s' => simp only [traceOff]; exact ih c s' m hn ha
+    | req r =>
+      simp only [traceOff, HitsServeLast]
+      rw [getTemplate_off L cfg c s r hoff]
+      cases hf : find c.items (keyOf cfg r) with
+      | some cached =>
+        simp only [Option.isSome_some, forall_const, obsOf, Tpl.obs]
+        refine ⟨⟨(cached.name, cached.text), ha _ _ hf, rfl⟩, by simp, ?_⟩
+        apply ih
+        · rw [ckeys_mutate]; exact nodup_getitem c _ hn
+        · intro k t hk
+          by_cases e : k = keyOf cfg r
+          · subst e
+            have h1 : find ((c.getitem (keyOf cfg r)).1).items (keyOf cfg r) = some cached := by
+              rw [find_getitem_self, hf]
+            rw [find_mutate_self _ _ _ _ h1] at hk
+            cases hk
+            simp [upd]
+          · rw [find_mutate_other _ _ e, find_getitem_other _ e] at hk
+            simp only [upd, e, if_false]
+            exact ha k t hk
+      | none =>
+        simp only [Option.isSome_none, Bool.false_eq_true, false_implies, true_and, forall_const]
+        cases hl : refGetTemplate L cfg s r with
+        | error e =>
+          simp only [obsOf, true_and]
+          exact ih c s m hn ha
+        | ok t =>
+          simp only [obsOf, true_and]
+          apply ih
+          · exact nodup_setitem c _ t hn
+          · intro k t' hk
+            by_cases e : k = keyOf cfg r
+            · subst e
+              rw [find_setitem_self] at hk
+              cases hk
+              simp [upd, Tpl.obs]
+            · simp only [upd, e, if_false]
+              exact ha k t' (find_setitem_other_sub c _ t hn e hk)
+
+/-- **Auto-reload off, no eviction: every later response for a key is the first load.** If all the
+keys in play (cached or requested) fit the capacity — they lie in a list `K` no longer than the
+capacity — and the cache holds `(name, text) = t0` under key `k`, then along the whole history,
+whatever store changes and whatever other requests intervene (sync or async, any globals), every
+request with key `k` is answered with `t0` and its own globals. -/
+theorem serves_first_sequence (L : Loader σ η) (cfg : Cfg) (hoff : cfg.autoReload = false)
+    (K : List Str) (k : Str) (t0 : Str × Text)
+    (evs : List (Event σ)) (c : Cache (Tpl η)) (s : σ)
+    (hcap : K.length ≤ c.cap) (hn : (ckeys c.items).Nodup) (hsub : ∀ x ∈ ckeys c.items, x ∈ K)
+    (hreq : ∀ r ∈ reqsOf evs, keyOf cfg r ∈ K)
+    (hk : ∃ t, find c.items k = some t ∧ (t.name, t.text) = t0) :
+    ∀ e ∈ traceOff L cfg c s evs, keyOf cfg e.1 = k →
+      e.2.2.2 = .ok { name := t0.1, text := t0.2, globals := globalsOf cfg e.1 } := by
+  induction evs generalizing c s with
+  | nil => intro e he; simp [traceOff] at he
+  | cons ev evs ih =>
+    cases ev with
+    | store s' =>
+      simp only [traceOff]
+      exact ih c s' hcap hn hsub (fun r hr => hreq r (by simpa [reqsOf] using hr)) hk
+    | req r =>
+      have hrK : keyOf cfg r ∈ K := hreq r (by simp [reqsOf])
+      have hreq' : ∀ r' ∈ reqsOf evs, keyOf cfg r' ∈ K := fun r' hr' => hreq r' (by simp [reqsOf, hr'])
+      obtain ⟨t, hkt, ht0⟩ := hk
+      simp only [traceOff, List.mem_cons]
+      rw [getTemplate_off L cfg c s r hoff]
+      cases hf : find c.items (keyOf cfg r) with
+      | some cached =>
+        simp only
+        have hc' : ∃ t', find (((c.getitem (keyOf cfg r)).1).mutate (keyOf cfg r)
+            { cached with globals := globalsOf cfg r }).items k = some t' ∧ (t'.name, t'.text) = t0 := by
+          by_cases e : k = keyOf cfg r
+          · subst e
+            have h1 : find ((c.getitem (keyOf cfg r)).1).items (keyOf cfg r) = some cached := by
+              rw [find_getitem_self, hf]
+            rw [hf] at hkt; cases hkt
+            exact ⟨_, find_mutate_self _ _ _ _ h1, ht0⟩
+          · rw [find_mutate_other _ _ e, find_getitem_other _ e]; exact ⟨t, hkt, ht0⟩
+        intro e he hke
+        rcases he with he | he
+        · subst he
+          simp only at hke ⊢
+          rw [hke] at hf
+          rw [hf] at hkt; cases hkt
+          simp only [obsOf, Tpl.obs]
+          rw [← ht0]
+        · refine ih _ s ?_ ?_ ?_ hreq' hc' e he hke
+          · show K.length ≤ (c.getitem (keyOf cfg r)).1.cap
+            rw [cap_getitem]; exact hcap
+          · rw [ckeys_mutate]; exact nodup_getitem c _ hn
+          · rw [ckeys_mutate]; intro x hx; exact hsub x (mem_ckeys_getitem hx)
+      | none =>
+        have hne : k ≠ keyOf cfg r := by intro e; rw [e, hf] at hkt; cases hkt
+        cases hl : refGetTemplate L cfg s r with
+        | error e' =>
+          simp only
+          intro e he hke
+          rcases he with he | he
+          · subst he; exact absurd hke.symm hne
+          · exact ih c s hcap hn hsub hreq' ⟨t, hkt, ht0⟩ e he hke
+        | ok tn =>
+          simp only
+          have hlt : c.items.length < c.cap := by
+            have hnotin := (find_none_iff c.items (keyOf cfg r)).mp hf
+            have h1 : (keyOf cfg r :: ckeys c.items).Nodup := List.nodup_cons.mpr ⟨hnotin, hn⟩
+            have h2 := nodup_subset_length (keyOf cfg r :: ckeys c.items) K h1 (by
+              intro x hx
+              rcases List.mem_cons.mp hx with h | h
+              · rw [h]; exact hrK
+              · exact hsub x h)
+            simp only [List.length_cons, ckeys, List.length_map] at h2
+            omega
+          intro e he hke
+          rcases he with he | he
+          · subst he; exact absurd hke.symm hne
+          · refine ih _ s ?_ ?_ ?_ hreq' ?_ e he hke
+            · rw [cap_setitem]; exact hcap
+            · exact nodup_setitem c _ tn hn
+            · intro x hx
+              rcases mem_ckeys_setitem hx with h | h
+              · rw [h]; exact hrK
+              · exact hsub x h
+            · rw [find_setitem_other_noevict c _ tn hne (fun _ => hlt)]; exact ⟨t, hkt, ht0⟩
+
+/-- non-vacuity: a two-key history within capacity 2 in which the source of `a` changes and `b` is
+requested in between — `a` keeps being served as first loaded -/
+example :
+    run dictLoader { autoReload := false, nsKey := false, eg := [] } (Cache.empty 2) (st [(0, "a", 1), (0, "b", 2)])
+      [.req (rq "a" none .sync), .store (st [(0, "a", 3), (0, "b", 4)]), .req (rq "b" none .async),
+       .req (rq "a" none .async)]
+      = [.ok { name := "a".toList, text := ("a".toList, 1), globals := [] },
+         .ok { name := "b".toList, text := ("b".toList, 4), globals := [] },
+         .ok { name := "a".toList, text := ("a".toList, 1), globals := [] }] := by decide
+
+end LiquidVerif.C23
+
+/-! ## a second search path / shadowing in `FileSystemLoader`, and aliasing of returned handles -/
+namespace LiquidVerif.C23
+open LiquidVerif.CacheLoader
+
+variable {σ η : Type}
+
+theorem fs2_respects (cfg : Cfg) : Respects fs2Loader cfg := by
+  intro s m m' r r' hid
+  have hn : r.name = r'.name := congrArg Prod.fst hid
+  simp only [fs2Loader, hn]
+  cases s 0 r'.name with
+  | some v => rfl
+  | none => cases s 1 r'.name <;> rfl
+
+/-- `FileSystemLoader` with two search paths: its `uptodate` is sound **while the set of names in the
+first path does not change** (`_partial`: see `fs2_sound_counterexample`) -/
+theorem fs2_sound_partial (D : Str → Prop) : UptodateSound fs2Loader (FirstHas D) := by
+  intro s s' m name ctx kw text full h mu hD hD' hsrc
+  simp only [fs2Loader] at hsrc ⊢
+  cases h0 : s 0 name with
+  | some v =>
+    rw [h0] at hsrc
+    cases hsrc
+    refine ⟨fun hu => ?_, fun e he => ?_⟩
+    · cases mu <;> cases m <;> simp only [Except.ok.injEq] at hu <;>
+        first | (rw [store_beq hu]; rfl) | cases hu
+    · cases mu <;> cases m <;> cases he
+  | none =>
+    rw [h0] at hsrc
+    simp only at hsrc
+    cases h1 : s 1 name with
+    | none => rw [h1] at hsrc; cases hsrc
+    | some v =>
+      rw [h1] at hsrc
+      cases hsrc
+      have hnot : s' 0 name = none := by
+        have : ¬ D name := fun hd => by have := (hD name).mpr hd; simp [h0] at this
+        cases hs' : s' 0 name with
+        | none => rfl
+        | some w => exact absurd ((hD' name).mp (by simp [hs'])) this
+      refine ⟨fun hu => ?_, fun e he => ?_⟩
+      · rw [hnot]
+        cases mu <;> cases m <;> simp only [Except.ok.injEq] at hu <;>
+          first | (simp only; rw [store_beq hu]; rfl) | cases hu
+      · cases mu <;> cases m <;> cases he
+
+/-- **A file appearing earlier in the search path is not picked up**: `a` is found in the second
+directory and cached; `a` is then created in the first directory; the caching loader keeps serving
+the second directory's file (its `uptodate` only stats the file that was found). -/
+theorem fs2_sound_counterexample :
+    ¬ (run fs2Loader cfgOn (Cache.empty 2) (st [(1, "a", 1)])
+          [.req (rq "a" none .sync), .store (st [(1, "a", 1), (0, "a", 2)]), .req (rq "a" none .sync)]
+        = refRun fs2Loader cfgOn (st [(1, "a", 1)])
+          [.req (rq "a" none .sync), .store (st [(1, "a", 1), (0, "a", 2)]), .req (rq "a" none .sync)]) := by
+  decide
+
+/-- when `servedCached` says so, the response **is the cache entry** (same name, text, full name and
+`uptodate`), rebound to this request's globals, and the entry stays in the cache so rebound -/
+theorem served_cached_result (L : Loader σ η) (cfg : Cfg) (c : Cache (Tpl η)) (s : σ) (r : Req)
+    (h : servedCached L cfg c s r = true) :
+    ∃ cached, find c.items (keyOf cfg r) = some cached ∧
+      getTemplate L cfg c s r =
+        (((c.getitem (keyOf cfg r)).1).mutate (keyOf cfg r) { cached with globals := globalsOf cfg r },
+          .ok { cached with globals := globalsOf cfg r }) := by
+  unfold servedCached at h
+  rw [getTemplate_eq]
+  unfold checkCacheM keyOf globalsOf
+  have hsn := getitem_snd c (cacheKey cfg r.name r.ctx r.kw)
+  rcases hgi : c.getitem (cacheKey cfg r.name r.ctx r.kw) with ⟨c1, o⟩
+  rw [hgi] at h hsn
+  simp only at h hsn
+  cases o with
+  | none => simp at h
+  | some cached =>
+    refine ⟨cached, hsn.symm, ?_⟩
+    simp only at h ⊢
+    cases har : cfg.autoReload with
+    | false => simp
+    | true =>
+      rw [har] at h
+      simp only [if_true] at h ⊢
+      cases hu : L.uptodate s r.mode cached.h with
+      | error e => rw [hu] at h; simp at h
+      | ok b =>
+        rw [hu] at h
+        cases b with
+        | false => simp at h
+        | true => rfl
+
+/-- **Aliasing of returned handles.** The caching loader hands out the cached object itself. If a
+request returned `t1` and a later request with the same key is served from the cache (auto-reload off,
+or on with an up-to-date source), then the object the first caller still holds — the cache entry — is
+afterwards bound to the *second* request's globals: it is `t1` with `globals` replaced, and it is also
+what the second caller got. (A non-caching loader builds a fresh template per request, so there an
+earlier handle keeps its globals; the property observes templates when they are returned, where the
+two agree — `globals_apply`.) -/
+theorem alias_rebinds (L : Loader σ η) (cfg : Cfg) (c : Cache (Tpl η)) (s s' : σ) (r r' : Req) (t1 : Tpl η)
+    (h1 : (getTemplate L cfg c s r).2 = .ok t1) (hkey : keyOf cfg r' = keyOf cfg r)
+    (hhit : servedCached L cfg (getTemplate L cfg c s r).1 s' r' = true) :
+    (getTemplate L cfg (getTemplate L cfg c s r).1 s' r').2 = .ok { t1 with globals := globalsOf cfg r' } ∧
+    find (getTemplate L cfg (getTemplate L cfg c s r).1 s' r').1.items (keyOf cfg r)
+      = some { t1 with globals := globalsOf cfg r' } := by
+  have hc := cached_after_ok L cfg c s r t1 h1
+  obtain ⟨cached, hf, hres⟩ := served_cached_result L cfg _ s' r' hhit
+  rw [hkey] at hf
+  unfold keyOf at hf
+  rw [hc] at hf
+  cases hf
+  rw [hres]
+  refine ⟨rfl, ?_⟩
+  simp only
+  rw [hkey]
+  apply find_mutate_self _ _ _ t1
+  rw [find_getitem_self]
+  exact hc
+
+/-- non-vacuity of `alias_rebinds`: first request with globals `{g1: 5}`, second without — the
+shared entry ends with the second request's (empty) globals -/
+example :
+    runShared dictLoader cfgOn (Cache.empty 2) (st [(0, "a", 1)])
+      [.req (rq "a" none .sync (some [(1, 5)])), .req (rq "a" none .async)] = [false, true] := by decide
+
+end LiquidVerif.C23
+
+/-! ## concurrent requests on a thread-safe cache: look-up, up-to-date check, load and store are
+separate atomic steps -/
+namespace LiquidVerif.C23
+open LiquidVerif.CacheLoader
+
+variable {σ η : Type}
+
+theorem mem_rebind {c : Cache (Tpl η)} {k : Str} {cached : Tpl η} {g : Globals} {p : Str × Tpl η}
+    (h : p ∈ (c.rebind k cached g).items) :
+    ∃ q ∈ c.items, p.1 = q.1 ∧ p.2.name = q.2.name ∧ p.2.text = q.2.text ∧ p.2.full = q.2.full ∧ p.2.h = q.2.h := by
+  unfold Cache.rebind at h
+  simp only [List.mem_map] at h
+  obtain ⟨q, hq, e⟩ := h
+  refine ⟨q, hq, ?_⟩
+  split at e <;> subst e <;> simp
+
+theorem inv_rebind (L : Loader σ η) (cfg : Cfg) (P : σ → Prop) (R : Req → Prop) (c : Cache (Tpl η))
+    (k : Str) (cached : Tpl η) (g : Globals) (hI : Inv L cfg P R c) : Inv L cfg P R (c.rebind k cached g) := by
+  intro p hp
+  obtain ⟨q, hq, e1, e2, e3, e4, e5⟩ := mem_rebind hp
+  obtain ⟨r0, s0, m0, h1, h2, h3, h4, h5⟩ := hI q hq
+  exact ⟨r0, s0, m0, h1, h2, by rw [e1]; exact h3, by rw [e3, e4, e5]; exact h4, by rw [e2, e4]; exact h5⟩
+
+/-- a Good template under the key of `r`, with any globals, is a template served for `r`'s own
+(name, namespace) -/
+theorem served_of_good (L : Loader σ η) (cfg : Cfg) (P : σ → Prop) (R : Req → Prop)
+    (hresp : Respects L cfg) (hinj : KeyInj cfg R) (r : Req) (hR : R r) (t : Tpl η) (g : Globals)
+    (hg : Good L cfg P R (cacheKey cfg r.name r.ctx r.kw) t) :
+    Served L P r ({ t with globals := g } : Tpl η).obs := by
+  obtain ⟨r0, s0, m0, hR0, hP0, hk, hsrc, hname⟩ := hg
+  have hid : ident cfg r0 = ident cfg r := hinj r0 r hR0 hR hk.symm
+  have h2 := hresp s0 m0 m0 r0 r hid
+  rw [hsrc] at h2
+  exact ⟨s0, m0, t.full, hP0, h2.symm, hname⟩
+
+/-- what a thread holds is an answer of the underlying loader for its own request -/
+def ThreadGood (L : Loader σ η) (cfg : Cfg) (P : σ → Prop) (R : Req → Prop) (th : Thread η) : Prop :=
+  R th.r ∧
+  match th.pc with
+  | .check cached => Good L cfg P R (cacheKey cfg th.r.name th.r.ctx th.r.kw) cached
+  | .storing t => Good L cfg P R (cacheKey cfg th.r.name th.r.ctx th.r.kw) t
+  | .done (.ok t) => Served L P th.r t.obs
+  | _ => True
+
+theorem threadStep_good (L : Loader σ η) (cfg : Cfg) (P : σ → Prop) (R : Req → Prop)
+    (hresp : Respects L cfg) (hinj : KeyInj cfg R) (c : Cache (Tpl η)) (s : σ) (th : Thread η)
+    (hP : P s) (hI : Inv L cfg P R c) (hT : ThreadGood L cfg P R th) :
+    Inv L cfg P R (threadStep L cfg c s th).1 ∧ ThreadGood L cfg P R (threadStep L cfg c s th).2 := by
+  obtain ⟨hR, hpc⟩ := hT
+  unfold threadStep
+  cases hp : th.pc with
+  | start =>
+    simp only
+    have hc1 : Inv L cfg P R (c.getitem (cacheKey cfg th.r.name th.r.ctx th.r.kw)).1 := fun p hp => hI p (mem_getitem hp)
+    rcases hgi : c.getitem (cacheKey cfg th.r.name th.r.ctx th.r.kw) with ⟨c1, o⟩
+    rw [hgi] at hc1
+    cases o with
+    | none => exact ⟨hc1, hR, trivial⟩
+    | some cached =>
+      have hmem : (c.getitem (cacheKey cfg th.r.name th.r.ctx th.r.kw)).2 = some cached := by rw [hgi]
+      have hg := hI _ (getitem_some_mem hmem)
+      simp only
+      cases cfg.autoReload with
+      | true => exact ⟨hc1, hR, hg⟩
+      | false =>
+        simp only [Bool.false_eq_true, if_false]
+        exact ⟨inv_rebind L cfg P R c1 _ _ _ hc1, hR, served_of_good L cfg P R hresp hinj th.r hR cached _ hg⟩
+  | check cached =>
+    rw [hp] at hpc
+    simp only
+    cases L.uptodate s th.r.mode cached.h with
+    | error e => exact ⟨hI, hR, trivial⟩
+    | ok b =>
+      cases b with
+      | false => exact ⟨hI, hR, trivial⟩
+      | true => exact ⟨inv_rebind L cfg P R c _ _ _ hI, hR, served_of_good L cfg P R hresp hinj th.r hR cached _ hpc⟩
+  | loading =>
+    simp only
+    cases hl : refGetTemplate L cfg s th.r with
+    | error e => exact ⟨hI, hR, trivial⟩
+    | ok t =>
+      refine ⟨hI, hR, ?_⟩
+      unfold refGetTemplate baseLoad at hl
+      split at hl
+      · cases hl
+      · next text full h hg =>
+        cases hl
+        exact ⟨th.r, s, th.r.mode, hR, hP, rfl, hg, rfl⟩
+  | storing t =>
+    rw [hp] at hpc
+    simp only
+    refine ⟨?_, hR, ?_⟩
+    · intro p hp'
+      rcases mem_setitem hp' with e | hm
+      · subst e; exact hpc
+      · exact hI p hm
+    · have := served_of_good L cfg P R hresp hinj th.r hR t t.globals hpc
+      simpa using this
+  | done o =>
+    rw [hp] at hpc
+    exact ⟨hI, hR, hpc⟩
+
+/-- invariant of the concurrent system -/
+def CInv (L : Loader σ η) (cfg : Cfg) (P : σ → Prop) (R : Req → Prop) (st : CState σ η) : Prop :=
+  Inv L cfg P R st.cache ∧ P st.store ∧ ∀ th ∈ st.threads, ThreadGood L cfg P R th
+
+theorem cstep_inv (L : Loader σ η) (cfg : Cfg) (P : σ → Prop) (R : Req → Prop)
+    (hresp : Respects L cfg) (hinj : KeyInj cfg R) (st : CState σ η) (e : CEvent σ)
+    (he : ∀ s, e = .store s → P s) (h : CInv L cfg P R st) : CInv L cfg P R (cstep L cfg st e) := by
+  obtain ⟨hI, hP, hT⟩ := h
+  cases e with
+  | store s => exact ⟨hI, he s rfl, hT⟩
+  | step i =>
+    simp only [cstep]
+    cases hth : st.threads[i]? with
+    | none => exact ⟨hI, hP, hT⟩
+    | some th =>
+      have hmem : th ∈ st.threads := List.mem_of_getElem? hth
+      have := threadStep_good L cfg P R hresp hinj st.cache st.store th hP hI (hT th hmem)
+      refine ⟨this.1, hP, ?_⟩
+      intro x hx
+      rcases List.mem_or_eq_of_mem_set hx with h1 | h1
+      · exact hT x h1
+      · rw [h1]; exact this.2
+
+/-- **Concurrent requests, any schedule** (any number of threads, any interleaving of their atomic
+steps with each other and with changes of the sources, auto-reload on or off, any capacity): every
+thread that has returned a template returned one that the underlying loader produced **for that
+thread's own (name, namespace)** on a store the schedule passed through, and every cache entry is such
+a template for its key — no cross-key substitution, nothing invented. `_partial`: non-colliding key
+strings as before. What concurrency does lose is recency: `lost_update`. -/
+theorem concurrent_served_partial (L : Loader σ η) (cfg : Cfg) (P : σ → Prop) (R : Req → Prop)
+    (hresp : Respects L cfg) (hinj : KeyInj cfg R) (es : List (CEvent σ)) (st : CState σ η)
+    (hes : ∀ s, CEvent.store s ∈ es → P s) (h : CInv L cfg P R st) :
+    CInv L cfg P R (crun L cfg st es) := by
+  induction es generalizing st with
+  | nil => exact h
+  | cons e es ih =>
+    simp only [crun]
+    apply ih
+    · intro s hs; exact hes s (List.mem_cons_of_mem _ hs)
+    · exact cstep_inv L cfg P R hresp hinj st e (fun s hs => hes s (by rw [hs]; exact List.mem_cons_self)) h
+
+/-- the initial state (empty cache, every thread about to start) satisfies the invariant -/
+theorem cinit_inv (L : Loader σ η) (cfg : Cfg) (P : σ → Prop) (cap : Nat) (s : σ) (rs : List Req) (hP : P s) :
+    CInv L cfg P (· ∈ rs) (cinit cap s rs) := by
+  refine ⟨by intro p hp; simp [cinit, Cache.empty] at hp, hP, ?_⟩
+  intro th hth
+  simp only [cinit, List.mem_map] at hth
+  obtain ⟨r, hr, e⟩ := hth
+  subst e
+  exact ⟨hr, trivial⟩
+
+private def thText : Thread Handle → Option Text
+  | { pc := .done (.ok t), .. } => some t.text
+  | _ => none
+
+/-- **Lost update** (auto-reload off makes it permanent): two threads miss the same key; thread 0
+loads version 1, the source changes to version 2, thread 1 loads and stores version 2 and returns it,
+then thread 0 stores its older version 1 over it. The cache ends up holding version 1 although
+version 2 had already been loaded, stored and returned; a third request is then served version 1. -/
+theorem lost_update :
+    let cfg : Cfg := { autoReload := false, nsKey := false, eg := [] }
+    let fin := crun dictLoader cfg (cinit 2 (st [(0, "a", 1)]) [rq "a" none .sync, rq "a" none .sync, rq "a" none .sync])
+      [.step 0, .step 1, .step 0, .store (st [(0, "a", 2)]), .step 1, .step 1, .step 0, .step 2]
+    fin.threads.map thText = [some ("a".toList, 1), some ("a".toList, 2), some ("a".toList, 1)] ∧
+    (find fin.cache.items "a".toList).map (·.text) = some ("a".toList, 1) := by
+  decide
+
+/-- with auto-reload on the stale entry left by a lost update is detected by the next request -/
+theorem lost_update_healed_by_auto_reload :
+    let fin := crun dictLoader cfgOn (cinit 2 (st [(0, "a", 1)]) [rq "a" none .sync, rq "a" none .sync, rq "a" none .sync])
+      [.step 0, .step 1, .step 0, .store (st [(0, "a", 2)]), .step 1, .step 1, .step 0,
+       .step 2, .step 2, .step 2, .step 2]
+    fin.threads.map thText = [some ("a".toList, 1), some ("a".toList, 2), some ("a".toList, 2)] := by
+  decide
+
+end LiquidVerif.C23
